@@ -155,6 +155,12 @@ def run(M, rep, tier, only=None):
         key = api_key(cn, name, tb)
         if name.startswith("force_") or name in ("__init__", "create_new", "open"):
             continue
+        if name.startswith("_") and not name.startswith("__"):
+            # a private piece of a constructor (File.__init__ split into steps) belongs to creation, like the constructor itself
+            from .common import private_part_of
+            gates = {g.qual for k_ in M.classes.values() for nm_, g in k_.methods.items() if nm_ in ("__init__", "create_new", "_create_header")}
+            if private_part_of(M, f.qual, gates):
+                continue
         if name.startswith("create_") or name.startswith("copy_") or name in ("__setitem__", "_create_header"):
             creator = True
         else:
@@ -240,6 +246,39 @@ def run(M, rep, tier, only=None):
         rep.check(R10, "File." + nm, badc is None, "File.%s writes %s: the update time recorded in the file is no longer the time of the last "
                   "change (and a forced time does not read back)" % (nm, ctx.fx.key(badc[1]) if badc else ""),
                   site=badc[1].site if badc else None, detail=describe_path(badc[0]) if badc else None)
+
+    # ---- R11: opening a file stamps its header only where the stamp is missing: an existing creation / update time is never
+    # rewritten by the constructor (whatever the two times are, whatever the mode)
+    R11 = rep.rule("C19.R11", "File.__init__ writes created_at / updated_at only when the header lacks them", floor=2,
+                   technique="every stamp write of the constructor (private pieces inlined) lies on a path that decided the key absent")
+    fi = ctx.member("File", "__init__")
+    if fi is None:
+        rep.bad(R11, "File.__init__", "required mechanism not found")
+    else:
+        ictx = Ctx(M, coarse=False)
+        ictx.cfg.compose = False
+        seen_w = {}
+        badw = None
+        for p in ictx.paths(fi, "File", max_paths=40000):
+            for e in p.events:
+                if not ictx.fx.is_write(e):
+                    continue
+                k = ictx.fx.key(e)
+                if k not in ("created_at", "updated_at"):
+                    continue
+                absent = any(v is False and a[0] in ("truthy", "contains", "cmp") and
+                             any(x == ("const", k) for x in subterms(a)) for a, v in p.decisions) or \
+                    any(v is True and a[0] == "isnone" and any(x == ("const", k) for x in subterms(a)) for a, v in p.decisions)
+                created = any(ev.kind == "raw" and ev.op in ("h5py.h5f.create",) for ev in p.events)
+                seen_w[k] = seen_w.get(k, 0) + 1
+                if not absent and not created and badw is None:
+                    badw = (p, e, k)
+        for k in ("created_at", "updated_at"):
+            rep.check(R11, "File.__init__/" + k, seen_w.get(k, 0) > 0 and (badw is None or badw[2] != k),
+                      ("opening an existing file rewrites its %s although the header has one: a creation time / forced time does "
+                       "not survive reopening" % k) if badw is not None and badw[2] == k else "required mechanism not found: the constructor never stamps " + k,
+                      site=badw[1].site if badw is not None and badw[2] == k else fi.file,
+                      detail=describe_path(badw[0]) if badw is not None and badw[2] == k else None)
 
     _r6(M, rep, ctx)
     _r7(M, rep)
